@@ -26,12 +26,14 @@ def showName : Name → String
 def showOp : Op Nat → String
   | .openW n => s!"open:{showName n}"
   | .write n v => s!"write:{showName n}:{v}"
+  | .close n v => s!"close:{showName n}:{v}"
   | .replace a b => s!"replace:{showName a}:{showName b}"
   | .rename a b => s!"rename:{showName a}:{showName b}"
   | .remove n => s!"remove:{showName n}"
 
 def parseVariant (s : String) : Option Variant :=
-  if s = "current" then some .current else if s = "threeStep" then some .threeStep else none
+  if s = "current" then some .current else if s = "threeStep" then some .threeStep
+  else if s = "earlyReplace" then some .earlyReplace else none
 
 def parseFS (b n k : String) : Option (FS Nat) := do
   some ⟨← parseFile b, ← parseFile n, ← parseFile k⟩
